@@ -20,7 +20,7 @@ from harness.tlc import run_tlc, MachineryError
 
 PID = 'C14'
 POINTS = ('before', 'mid', 'after')
-MODES = ('kill', 'exit3', 'raise')
+MODES = ('kill', 'exit3', 'raise', 'term')
 
 
 def run(ctx):
@@ -35,7 +35,7 @@ def run(ctx):
         for N, P in ((3, 2), (3, 3)) if quick else ((3, 1), (3, 2), (3, 3), (4, 2)):
             cfg = (f'SPECIFICATION FairSpec\nCONSTANTS N = {N} P = {P} '
                    f'FaultKs = {{{", ".join(str(i) for i in range(1, N + 1))}}} '
-                   'FaultPoints = {"before", "mid", "after"} FaultModes = {"kill", "exit3", "raise"} '
+                   'FaultPoints = {"before", "mid", "after"} FaultModes = {"kill", "exit3", "raise", "term"} '
                    'Fixed = TRUE\nINVARIANT TypeOK\nINVARIANT FailNeverReturns\n'
                    'INVARIANT RaisedHasNoResults\nPROPERTY FaultLeadsToRaise\nCHECK_DEADLOCK FALSE\n')
             res = run_tlc('WorkerPool', cfg_text=cfg, timeout=3600)
